@@ -76,10 +76,17 @@ def run_single(cfg):
     except Exception as err:
         return {'violations': [V('c17.constructor_exception.' + type(err).__name__, f'{txt}: {type(err).__name__}: {err}')], 'cls': 'ctor_exc'}
     masses = dict(sampler.fragment_masses)
+    # library key of every fragment, by the 'fragname' attribute its atoms carry (a caller's keys need not repeat it)
+    attr_of = {key: next((d.get('fragname') for _, d in t.nodes(data=True)), key) for key, t in sampler.fragment_dict.items()}
+    key_of = {a: k for k, a in attr_of.items()}
+    if len(key_of) == len(attr_of) and any(k != a for k, a in attr_of.items()):
+        counters['libraries_keyed_unlike_fragname'] += 1
+    else:
+        key_of = {}
     # (iii) mass model
     if cfg['all_atom'] and not cfg['fragment_masses']:
         for name, t in sampler.fragment_dict.items():
-            want = (cfg.get('unit_masses') or {}).get(name)
+            want = (cfg.get('unit_masses') or {}).get(attr_of.get(name, name))
             if want is None:
                 want = SC.standalone_mass(t)
             tol = 0.02 * (len(t) + 8)
@@ -152,7 +159,7 @@ def run_single(cfg):
     # (ii) stop rule
     if set(mol.nodes) == set(range(len(mol))) and m >= 1:
         names = [mol.nodes[blocks[k][0]].get('fragname') for k in sorted(blocks)]
-        added = [masses.get(nm) for nm in names[1:]]
+        added = [masses.get(key_of.get(nm, nm)) for nm in names[1:]]
         if all(x is not None for x in added):
             cw, early = 0.0, None
             eps = 0.0 if cfg.get('exact_target') is not None else 1e-6
